@@ -2,7 +2,7 @@
 # Runs the quick check of the named property (full scale unless $2 given) against every seeded change; prints one line each.
 # usage: tools/seeded_matrix.sh [scale] [ids...]
 scale=${1:-1.0}; shift
-ids=${@:-$(ls /verif/seeded)}
+ids=${@:-$(cd /verif/seeded && ls -d */ | tr -d /)}
 for id in $ids; do
   prop=$(python3 -c "import json;print(json.load(open('/verif/seeded/$id/meta.json'))['property'])")
   out=$(/verif/tools/try_patch.sh /verif/seeded/$id/patch.diff $prop $scale 2>&1)
